@@ -74,7 +74,9 @@ def h_centroid_kernel(ctx, case):
               'correlation of the centroid with its own leaf is 1')
     for j in range(nl):
         if j != k:
-            ctx.lemma(corr[j, 0] <= 1, 'no correlation exceeds 1')
+            # (plain floats in the self-test: allow for rounding)
+            ctx.lemma(corr[j, 0] <= (1 if ctx.mode == 'sym' else 1 + 1e-9),
+                      'no correlation exceeds 1')
             # the property's precondition: no other leaf is perfectly
             # correlated with the centroid on the genes used
             ctx.assume(Not(ctx.eq(corr[j, 0], 1)))
